@@ -247,14 +247,10 @@ func (s *ProxyServer) serveRead(w http.ResponseWriter, r *http.Request) {
 		return
 	}
 
-	// Lookup our database that we use for TXID tracking.
-	// If the database hasn't been created yet, just send to target.
+	// Lookup our database that we use for TXID tracking. If it has not been
+	// created on this node yet then the node is behind the write that issued
+	// the cookie, so it is treated like any other position before the TXID.
 	db := s.store.DB(s.DBName)
-	if db == nil {
-		s.logf("proxy: %s %s: no database %q, proxying to target", r.Method, r.URL.Path, s.DBName)
-		s.proxyToTarget(w, r, false)
-		return
-	}
 
 	// Wait for database to catch up to TXID.
 	ticker := time.NewTicker(s.PollTXIDInterval)
@@ -266,9 +262,14 @@ func (s *ProxyServer) serveRead(w http.ResponseWriter, r *http.Request) {
 	var pos ltx.Pos
 LOOP:
 	for {
-		if pos = db.Pos(); pos.TXID >= txid {
-			s.logf("proxy: %s %s: database %q at txid %s, proxying to target", r.Method, r.URL.Path, s.DBName, pos.TXID.String())
-			break LOOP
+		if db == nil {
+			db = s.store.DB(s.DBName)
+		}
+		if db != nil {
+			if pos = db.Pos(); pos.TXID >= txid {
+				s.logf("proxy: %s %s: database %q at txid %s, proxying to target", r.Method, r.URL.Path, s.DBName, pos.TXID.String())
+				break LOOP
+			}
 		}
 
 		select {
